@@ -84,7 +84,7 @@ func sinksMain(args []string) {
 	ctx := context.Background()
 	for i := 0; i < *n; i++ {
 		st.Cases++
-		switch p.intn(10) {
+		switch p.intn(11) {
 		case 0, 1, 2, 3, 4: // writer.Sink
 			tbl, toks := genTable()
 			cfg := p.intn(4)
@@ -233,6 +233,46 @@ func sinksMain(args []string) {
 			}
 			o.emit(fmt.Sprintf("chan %s %s false %s", bstr(mode != 0), bstr(mode == 0), obs), "ok")
 			st.hit("chan-during-wait:" + obs)
+		case 10: // ChannelSink: several Process calls at once on one sink, each with its own bounded wait
+			if st.Counts["chan-concurrent"] >= 25 {
+				continue // each of these takes a timeout's worth of wall clock
+			}
+			nC := 2 + p.intn(4)
+			ch := make(chan *eventlogger.Event) // nobody receives
+			cs, _ := channel.NewChannelSink(ch, 30*time.Millisecond)
+			type ret struct {
+				err error
+				dt  time.Duration
+			}
+			rets := make(chan ret, nC)
+			for k := 0; k < nC; k++ {
+				stagger := time.Duration(k*p.intn(12)) * time.Millisecond
+				go func() {
+					time.Sleep(stagger)
+					t0 := time.Now()
+					_, err := cs.Process(ctx, &eventlogger.Event{Type: "x"})
+					rets <- ret{err, time.Since(t0)}
+				}()
+			}
+			returned := 0
+			deadline := time.After(2500 * time.Millisecond)
+		collect:
+			for returned < nC {
+				select {
+				case r := <-rets:
+					returned++
+					if r.err == nil {
+						oracle("C13 ChannelSink: Process reported success but nobody received from the channel (never neither)")
+					}
+				case <-deadline:
+					break collect
+				}
+			}
+			if returned < nC {
+				oracle("C13 ChannelSink: %d concurrent Process calls on a channel nobody reads (timeout 30ms): only %d returned within 2.5s, the others are still blocked", nC, returned)
+			}
+			st.hit("chan-concurrent")
+			st.Cases++
 		case 7: // ChannelSink
 			cr, cd := p.chance(1, 2), p.chance(1, 2)
 			ch := make(chan *eventlogger.Event, 1)
